@@ -426,7 +426,7 @@ func (e srcExchange) GetBlocks(ctx context.Context, cs []cid.Cid) (<-chan blocks
 	return ch, nil
 }
 func (e srcExchange) NotifyNewBlocks(ctx context.Context, bs ...blocks.Block) error { return nil }
-func (e srcExchange) Close() error                                                    { return nil }
+func (e srcExchange) Close() error                                                  { return nil }
 
 func dump(ctx context.Context, n *cluster.Node) string {
 	var parts []string
